@@ -3,9 +3,10 @@
 
   1. design level: TLC explores the complete graph of the transcribed back-ends against the reference
      sorted map, per back-end (exhaustive, small alphabets);
-  2. spec -> code: model counterexamples of the strict configs (CEX), a state cover of a small
-     complete graph (COV) and random walks (BEH) are replayed on the REAL stores, together with the
-     harness' seeded long random sequences;
+  2. spec -> code: the path to the first call of every class of monitor failure of the transcribed
+     code (CEX, model counterexamples), a sampled state cover of the complete graph (COV) and random
+     walks (BEH), all produced by TLC, are replayed on the REAL stores, together with the harness'
+     seeded long random sequences;
   3. code -> spec: the recorded calls are validated by Trace_StoreBackend.tla; its monitors, evaluated
      by TLC on the observed results, are the only source of a verdict.
 """
@@ -88,10 +89,10 @@ def run(ctx, monitors=MONITORS):
                     ctx.notes.append("model counterexample (%s, %s): monitors %s break at a call of shape '%s' after %d calls"
                                      % (c, s["backend"], ",".join(key[2]), key[1], len(s["steps"])))
     scripts += _chain(cov, 60)
-    # ---- 2b. random walks of the design model
+    # ---- 2. random walks of the design model (tlc -simulate, seeded)
     nw, walks = 0, []
-    for cfg, num, depth in (("Sim_StoreBackend.cfg", 800 if q else 8000, 30),
-                            ("Sim_StoreBackend_ring10.cfg", 200 if q else 2000, 60)):
+    for cfg, num, depth in (("Sim_StoreBackend.cfg", 600 if q else 8000, 30),
+                            ("Sim_StoreBackend_ring10.cfg", 150 if q else 2000, 60)):
         sim = ctx.model_check(MOD, cfg, workers=1, simulate="num=%d" % num, depth=depth + 3,
                               seed=ctx.seed, timeout=900)
         for i, (tag, obj) in enumerate(core.parse_vp_prints(sim.prints)):
